@@ -54,10 +54,27 @@ def render_template(tpl):
     return ' '.join(repr(e) if isinstance(e, Pred) else render_item(e) for e in _merge_template(tpl))
 
 
+def octet_normal(items):
+    """Spelling-independent form of a term list: a fixed-width integer of a literal value is that constant (int_to_bytes(0, 2) ==
+    b'\\x00\\x00'); a one-octet integer field is the octet itself (int_to_bytes(x) == bytearray([x]) for the octet-valued
+    header fields - the assumption stated by the rules that use templates)."""
+    out = []
+    for it in items:
+        if isinstance(it, tuple) and it[0] == 'INT' and str(it[1]).isdigit() and str(it[2]).isdigit() and int(it[2]) < 256 ** max(int(it[1]), 1):
+            out.append(('C', int(it[2]).to_bytes(max(int(it[1]), 1), 'big')))
+        elif isinstance(it, tuple) and it[0] == 'INT' and str(it[1]) == '1':
+            out.append(('BYTE', it[2]))
+        elif isinstance(it, tuple) and it[0] == 'BYTE' and str(it[1]).isdigit() and int(it[1]) < 256:
+            out.append(('C', bytes([int(it[1])])))
+        else:
+            out.append(it)
+    return out
+
+
 def match(found_items, tpl):
     """Return (ok, index_of_first_difference, message)."""
-    f = merge_consts(found_items)
-    t = _merge_template(tpl)
+    f = merge_consts(octet_normal(found_items))
+    t = _merge_template(octet_normal(tpl))
     n = max(len(f), len(t))
     for i in range(n):
         if i >= len(f):
@@ -86,3 +103,116 @@ def match_any(found_items, builder, role_aliases):
         if first_fail is None or idx > first_fail[0]:
             first_fail = (idx, msg, render_template(tpl))
     return False, None, first_fail[1], first_fail[2]
+
+
+# ------------------------------------------------------------------------------------------------ rendered value helpers
+def split_top(t, sep=','):
+    """Split a rendered text at top-level separators (brackets and quotes respected)."""
+    out, d, cur, q = [], 0, '', None
+    for ch in t:
+        if q is not None:
+            cur += ch
+            if ch == q:
+                q = None
+            continue
+        if ch in '\'"':
+            q = ch
+        elif ch in '([{':
+            d += 1
+        elif ch in ')]}':
+            d -= 1
+        if ch == sep and d == 0:
+            out.append(cur.strip())
+            cur = ''
+        else:
+            cur += ch
+    if cur.strip():
+        out.append(cur.strip())
+    return out
+
+
+def display_keys(text):
+    """Key texts of a rendered dict display `{k1: v1, ...}` / set or tuple display, or None when the text is not a display."""
+    if len(text) < 2 or text[0] not in '{([' or text[-1] not in '})]':
+        return None
+    out = []
+    for e in split_top(text[1:-1]):
+        kv = split_top(e, ':')
+        out.append(kv[0])
+    return out
+
+
+def resolve_lookup(text):
+    """A rendered dispatch `{k1: v1, ...}.get(K, D)` or `{k1: v1, ...}[K]` with K a decided key -> the selected value text
+    (D when K is no key of the display); any other text is returned unchanged.  This is how a rule reads "which class does the
+    table give for member M" off the interpreter's value instead of off the dict literal in the source."""
+    if not text.startswith('{'):
+        return text
+    d = 0
+    end = None
+    for i, ch in enumerate(text):
+        if ch in '([{':
+            d += 1
+        elif ch in ')]}':
+            d -= 1
+            if d == 0:
+                end = i
+                break
+    if end is None:
+        return text
+    table = {}
+    for e in split_top(text[1:end]):
+        kv = split_top(e, ':')
+        if len(kv) != 2:
+            return text
+        table[kv[0]] = kv[1]
+    rest = text[end + 1:]
+    if rest.startswith('.get(') and rest.endswith(')'):
+        a = split_top(rest[5:-1])
+        if len(a) in (1, 2):
+            return table.get(a[0], a[1] if len(a) == 2 else 'None')
+    if rest.startswith('[') and rest.endswith(']') and rest[1:-1] in table:
+        return table[rest[1:-1]]
+    return text
+
+
+def area_template(coll, width=2):
+    """RFC 4880 5.2.3 subpacket area built from objects: a `width`-octet count of the octets that follow, then every member of
+    `coll` serialised in order.  The count may be spelled as the sum of the members' lengths, as the sum of the lengths of
+    their serialisations or as the length of the serialised body; a loop, a comprehension and a join give the same EACH term."""
+    from .interp import alpha
+
+    def members(item):
+        return item[0] == 'EACH' and item[2] == coll and [tuple(i) for i in merge_consts(item[3])] == [('SYM', '%s.__bytearray__()' % item[1])]
+
+    def count(item):
+        if item[0] != 'INT' or item[1] != str(width):
+            return False
+        t = alpha(item[2])
+        return t in ('sum(EACH($1 in %s;len($1)))' % coll, 'sum(EACH($1 in %s;len($1.__bytearray__())))' % coll,
+                     'sum(map(len, %s))' % coll, 'len(EACH($1 in %s;$1.__bytearray__()))' % coll)
+    return [Pred('LEN(%d; members of %s)' % (width, coll), count), Pred('EACH(x in %s; x.__bytearray__())' % coll, members)]
+
+
+def b2i_forms(owner, x):
+    """Value texts that denote the big-endian integer of the octets x: the library helper (a thin wrapper, checked by C09) and the
+    builtin it wraps."""
+    return ['%s.bytes_to_int(%s)' % (owner, x), "int.from_bytes(%s, 'big')" % x, "int.from_bytes(%s, byteorder='big')" % x,
+            "%s.bytes_to_int(%s, 'big')" % (owner, x)]
+
+
+UNMODELLED = (r'EACH\(_ in while ', r'loop-rebound\(', r'\.to_bytes\(', r'\.pop\(', r'\breduce\(', r'\bmethodcaller\(', r'\boperator\.\w+\(',
+              r'<raises ', r'\bstruct\.pack\(', r'EACH\((\$[\d.]+) in [^;]*\)(?: if [^;]*)?;\1\)')
+
+
+def unmodelled(text):
+    """The residue the interpreter leaves in a value when the source uses a construct outside its byte-term model (a while loop
+    that drains a list, a fold through functools/operator, pieces yielded by a generator helper, struct packing, an inlined
+    int.to_bytes ...): such a value cannot be compared with a template, and a rule that finds one must answer exit 2
+    (AnalysisError), never "violation".  Returns the marker found, or None."""
+    import re as _re
+    for pat in UNMODELLED:
+        m = _re.search(pat, text or '')
+        if m:
+            return m.group(0)
+    return None
